@@ -247,14 +247,31 @@ def worker_main(pid, tier, seed, shard, nshards, out, budget_s):
     cov = start_cover(getattr(mod, 'COVER', []))
     done = 0
     truncated = False
-    for case in mine:
-        if time.time() - t0 > budget_s:
-            truncated = True
-            break
-        run_one(mod, case, ctx)
-        done += 1
-        if len(ctx.samples) < 2 and ctx.case_viol == 0:
-            ctx.sample(case)
+    # a case that outlives the budget by half (a changed tree whose ranks or
+    # loops blow up) is abandoned from inside, so that what the monitors saw
+    # before it still reaches the verdict (truncated => inconclusive unless a
+    # violation was already recorded); the parent's kill comes 40 s later
+    import signal
+
+    class _Watchdog(BaseException):
+        pass
+
+    def _alarm(signum, frame):
+        raise _Watchdog()
+    signal.signal(signal.SIGALRM, _alarm)
+    signal.alarm(int(budget_s * 1.5) + 20)
+    try:
+        for case in mine:
+            if time.time() - t0 > budget_s:
+                truncated = True
+                break
+            run_one(mod, case, ctx)
+            done += 1
+            if len(ctx.samples) < 2 and ctx.case_viol == 0:
+                ctx.sample(case)
+        signal.alarm(0)
+    except _Watchdog:
+        truncated = True
     if hasattr(mod, 'finish_worker'):
         mod.finish_worker(ctx)
     res = ctx.dump()
